@@ -60,6 +60,8 @@ func RunSpecial(prop, tier string, seed int64, tmp string) *Special {
 		return specialC19(seed, thorough)
 	case "C09":
 		return specialC09(seed, thorough)
+	case "C06", "C07":
+		return specialLarge(prop, seed, thorough)
 	}
 	return nil
 }
@@ -603,6 +605,14 @@ func specialC14(seed int64, thorough bool) *Special {
 			for s := 0; s < steps; s++ {
 				hb := g.Batch(BatchOpts{NDocs: g.smallSize() * (1 + g.R.Intn(3))})
 				hcm := g.ChunkMode()
+				if g.R.Intn(6) == 0 {
+					// a failed build: an unknown chunk mode makes convert return an error
+					if _, _, err := Current.New(hb.Documents(), HarnessNorm, 5000); err != nil {
+						failedBuilds++
+						hist += fmt.Sprintf("err(%d)", len(hb))
+						continue
+					}
+				}
 				if g.R.Intn(4) == 0 {
 					// a failed build: the norm function panics after a few calls
 					calls := 0
@@ -755,6 +765,22 @@ func specialC15(seed int64, thorough bool, tmp string) *Special {
 				d = append(d, uint64(fa.CRC()), uint64(fa.ChunkMode()), uint64(fa.Version()), fa.NumDocs(),
 					fa.StoredIndexOffset(), fa.FieldsIndexOffset(), fa.DocValueOffset())
 			}
+			// lookups that must stay empty: an absent term and an unknown field, through fresh objects
+			for _, ft := range []FT{{"body", []byte("\x00no-such-term")}, {"no-such-field", []byte("a")}} {
+				if dd, err := s.Dictionary(ft.F); err == nil {
+					if pl, err := dd.PostingsList(ft.T, nil, nil); err == nil {
+						d = append(d, pl.Count())
+						if it, err := pl.Iterator(true, true, true, nil); err == nil {
+							d = append(d, it.Count())
+							if p, _ := it.Next(); p != nil {
+								d = append(d, 1, p.Number())
+							} else {
+								d = append(d, 0)
+							}
+						}
+					}
+				}
+			}
 			pb, _ := in.Persist(s)
 			return snap{d, pb}
 		}
@@ -769,6 +795,8 @@ func specialC15(seed int64, thorough bool, tmp string) *Special {
 		fts := BatchTerms(b0)
 		hist := []string{}
 		nontriv := false
+		var prePL segment.PostingsList
+		var preIt segment.PostingsIterator
 		for o := 0; o < nops; o++ {
 			si := g.R.Intn(len(segs))
 			seg := segs[si]
@@ -782,14 +810,15 @@ func specialC15(seed int64, thorough bool, tmp string) *Special {
 					if err != nil {
 						return err
 					}
-					pl, err := d.PostingsList(ft.T, bms[g.R.Intn(2)], nil)
+					pl, err := d.PostingsList(ft.T, bms[g.R.Intn(2)], prePL)
 					if err != nil {
 						return err
 					}
-					it, err := pl.Iterator(true, true, true, nil)
+					it, err := pl.Iterator(true, true, true, preIt)
 					if err != nil {
 						return err
 					}
+					prePL, preIt = pl, it // reused by the next lookup, on whichever segment that is
 					pl.Count()
 					for p, err := it.Next(); err == nil && p != nil; p, err = it.Advance(p.Number() + 2) {
 					}
@@ -1209,12 +1238,82 @@ func specialC19(seed int64, thorough bool) *Special {
 // (run from the -race build of the harness)
 // ---------------------------------------------------------------------------
 
+// reentrantAfterCancel: merges cancelled at every early point (which exercise the
+// error paths that hand pooled scratch state back), each followed by nested
+// stored-field reads whose answers must be those of the plain reads.
+func reentrantAfterCancel(sp *Special, g *Gen, seed int64, n int) {
+	for r := 0; r < n; r++ {
+		nd := 4 + g.R.Intn(30)
+		if r%2 == 0 {
+			nd = 130 + g.R.Intn(60) // a stored block is flushed (and the channel closed) while the first segment is copied
+		}
+		b := g.Batch(BatchOpts{NDocs: nd, NFields: 3})
+		b2 := g.Batch(BatchOpts{NDocs: 3 + g.R.Intn(10), NFields: 3, IDPrefix: "x"})
+		seg, _, err := Current.New(b.Documents(), HarnessNorm, 1025)
+		seg2, _, err2 := Current.New(b2.Documents(), HarnessNorm, 1025)
+		if err != nil || err2 != nil {
+			continue
+		}
+		plain := func(d uint64) W {
+			var out W
+			seg.VisitStoredFields(d, func(f string, v []byte) bool {
+				out.Str(f)
+				out.Bytes(v)
+				return true
+			})
+			return out
+		}
+		var clean bytes.Buffer
+		Current.Merger([]segment.Segment{seg, seg2}, []*roaring.Bitmap{bitmapOf(g.subset(nd, 3)), nil}, 16).WriteTo(&clean, nil)
+		for _, k := range []int{0, 1, clean.Len() / 4, clean.Len() / 2} {
+			cw := &closeAt{k: k, ch: make(chan struct{})}
+			if k == 0 {
+				close(cw.ch)
+				cw.closed = true
+			}
+			Current.Merger([]segment.Segment{seg, seg2}, []*roaring.Bitmap{bitmapOf(g.subset(nd, 3)), nil}, 16).WriteTo(cw, cw.ch)
+			for t := 0; t < 4; t++ {
+				d1, d2 := uint64(g.R.Intn(nd)), uint64(g.R.Intn(nd))
+				want1, want2 := plain(d1), plain(d2)
+				var got1, got2 W
+				first := true
+				seg.VisitStoredFields(d1, func(f string, v []byte) bool {
+					if first {
+						first = false
+						seg.VisitStoredFields(d2, func(f2 string, v2 []byte) bool {
+							got2.Str(f2)
+							got2.Bytes(v2)
+							return true
+						})
+					}
+					got1.Str(f)
+					got1.Bytes(v)
+					return true
+				})
+				sp.Evaluations++
+				if !eqW(got1, want1) || (len(want1) > 0 && !eqW(got2, want2)) {
+					sp.failf(map[string]interface{}{"seed": seed, "round": r, "cancel_after_bytes": k, "outer_doc": d1, "inner_doc": d2},
+						"after a merge cancelled at byte %d, a stored-field read nested inside another one changes the answers (outer doc %d, inner doc %d)", k, d1, d2)
+				}
+			}
+		}
+	}
+}
+
 func specialC09(seed int64, thorough bool) *Special {
 	sp := &Special{Extra: map[string]interface{}{}}
 	g := NewGen(seed*86028121 + 9)
 	rounds, gor, perG := 6, 8, 60
 	if thorough {
 		rounds, gor, perG = 60, 12, 200
+	}
+	reentrantAfterCancel(sp, g, seed, rounds)
+	if os.Getenv("VERIF_C09_REENTRANT_ONLY") != "" {
+		// the binary without the race detector (whose sync.Pool drops objects at random) runs this
+		// deterministic part only
+		sp.Rule = "merges cancelled at several byte offsets, each followed by nested stored-field reads compared with plain reads (binary without the race detector: sync.Pool behaves deterministically)"
+		sp.Distinct, sp.Nontrivial = sp.Evaluations, sp.Evaluations
+		return sp
 	}
 	sp.Rule = fmt.Sprintf("%d segments (built, merged, loaded from a file; 130-400 documents so that stored fields span several blocks); %d goroutines each issue %d random read calls (dictionary enumeration, postings iteration, stored fields, doc values, DocsMatchingTerms, nested stored/postings reads from inside a stored-field visitor) on the same segment while another goroutine merges that segment; every answer is compared with the answer computed sequentially beforehand; the harness is built with the Go race detector, whose reports are collected; non-trivial = a round in which at least two goroutines were inside read calls at the same time (measured)", rounds, gor, perG)
 	overlapRounds := 0
@@ -1260,8 +1359,24 @@ func specialC09(seed int64, thorough bool) *Special {
 			name string
 			run  func() W
 		}
-		mkCalls := func(rr *rand.Rand) []call {
+		type keepT struct {
+			pl segment.PostingsList
+			it segment.PostingsIterator
+		}
+		keeps := make([]*keepT, gor)
+		mkCalls := func(rr *rand.Rand, keep *keepT) []call {
 			var cs []call
+			if rr.Intn(2) == 0 { // persisting the shared segment while others read (and persist) it
+				cs = append(cs, call{"persist", func() W {
+					var buf bytes.Buffer
+					n, err := seg.WriteTo(&buf, nil)
+					var out W
+					out.Num(uint64(n))
+					out.Bool(err == nil)
+					out.Bytes(buf.Bytes())
+					return out
+				}})
+			}
 			for i := 0; i < perG; i++ {
 				ft := fts[rr.Intn(len(fts))]
 				doc := uint64(rr.Intn(nd))
@@ -1274,10 +1389,12 @@ func specialC09(seed int64, thorough bool) *Special {
 						return w
 					}})
 				case 1:
-					cs = append(cs, call{"postings", func() W {
+					// the goroutine keeps its postings list and iterator and hands them back as prealloc
+					cs = append(cs, call{"postings(reused objects)", func() W {
 						d, _ := seg.Dictionary(ft.F)
-						pl, _ := d.PostingsList(ft.T, nil, nil)
-						it, _ := pl.Iterator(true, true, true, nil)
+						pl, _ := d.PostingsList(ft.T, nil, keep.pl)
+						it, _ := pl.Iterator(true, true, true, keep.it)
+						keep.pl, keep.it = pl, it
 						var out W
 						for p, err := it.Next(); err == nil && p != nil; p, err = it.Next() {
 							postingOut(&out, p)
@@ -1356,7 +1473,8 @@ func specialC09(seed int64, thorough bool) *Special {
 		all := make([][]call, gor)
 		want := make([][]W, gor)
 		for gi := 0; gi < gor; gi++ {
-			all[gi] = mkCalls(rand.New(rand.NewSource(seed*1000 + int64(r*100+gi))))
+			keeps[gi] = &keepT{}
+			all[gi] = mkCalls(rand.New(rand.NewSource(seed*1000+int64(r*100+gi))), keeps[gi])
 			for _, c := range all[gi] {
 				var w W
 				c := c
@@ -1369,6 +1487,9 @@ func specialC09(seed int64, thorough bool) *Special {
 		}
 		seg = coldCopy() // the closures read the variable: from here on they hit the cold instance
 		_ = warm
+		for gi := range keeps { // the reusable objects start fresh again for the concurrent pass
+			*keeps[gi] = keepT{}
+		}
 		var inside, maxInside, mism int64
 		var wg sync.WaitGroup
 		stop := make(chan struct{})
@@ -1522,4 +1643,105 @@ func WriteGolden(dir string) error {
 		}
 	}
 	return nil
+}
+
+// ---------------------------------------------------------------------------
+// C06 / C07: blocks and chunks far larger than anything the model-compared
+// scenarios carry (megabytes of stored values / doc-value terms per block).
+// The oracle is the input itself: the values put in must come back.
+// ---------------------------------------------------------------------------
+
+func specialLarge(prop string, seed int64, thorough bool) *Special {
+	sp := &Special{Extra: map[string]interface{}{}}
+	g := NewGen(seed*7368787 + 6)
+	rounds := 2
+	if thorough {
+		rounds = 12
+	}
+	sp.Rule = fmt.Sprintf("%d segments of 130-300 documents whose stored values (C06) or doc-value terms (C07) are 6-12 KB each, so that one 128-document stored block / one doc-value chunk holds more than 1 MiB; built, loaded from a file and merged; every document is read back and compared with the input; non-trivial = a block or chunk above 1 MiB", rounds)
+	for r := 0; r < rounds; r++ {
+		nd := 130 + g.R.Intn(170)
+		var b Batch
+		size := 9000 + g.R.Intn(4000) // 128 documents exceed 1 MiB
+		for d := 0; d < nd; d++ {
+			val := make([]byte, size)
+			for i := range val {
+				val[i] = byte(g.R.Intn(255)) // no 0xff: also usable as a doc-value term
+			}
+			id := fmt.Sprintf("k%d", d)
+			doc := Doc{idField(id, true)}
+			if prop == "C06" {
+				doc = append(doc, Field{N: "body", St: true, Val: val})
+			} else {
+				doc = append(doc, Field{N: "body", Len: 1, DV: true, Terms: []Term{{T: val, Freq: 1}}})
+			}
+			b = append(b, doc)
+		}
+		file, seg, err := buildBytes(Current, b, 1025)
+		if err != nil {
+			sp.failf(nil, "build failed: %v", err)
+			continue
+		}
+		segs := map[string]segment.Segment{"built": seg}
+		if l, err := Current.Load(segment.NewDataReaderAt(&faultyReader{b: file, failFrom: -1}, len(file))); err == nil {
+			segs["loaded"] = l
+		} else {
+			sp.failf(nil, "load failed: %v", err)
+		}
+		if mb, _, err := mergeBytes(Current, []segment.Segment{seg}, []*roaring.Bitmap{nil}, 1025); err == nil {
+			if m, err := Current.Load(segment.NewDataBytes(mb)); err == nil {
+				segs["merged"] = m
+			}
+		} else {
+			sp.failf(map[string]interface{}{"seed": seed, "round": r, "ndocs": nd, "value_size": size}, "merge of a segment with large blocks failed: %v", err)
+		}
+		for kind, sg := range segs {
+			in := map[string]interface{}{"seed": seed, "round": r, "segment": kind, "ndocs": nd, "value_size": size}
+			bad := 0
+			if prop == "C06" {
+				for d := 0; d < nd; d++ {
+					var got []byte
+					found := false
+					err := sg.VisitStoredFields(uint64(d), func(f string, v []byte) bool {
+						if f == "body" {
+							got, found = append([]byte(nil), v...), true
+						}
+						return true
+					})
+					if err != nil || !found || !bytes.Equal(got, b[d][1].Val) {
+						bad++
+					}
+				}
+			} else {
+				rd, err := sg.DocumentValueReader([]string{"body"})
+				if err != nil {
+					sp.failf(in, "DocumentValueReader failed: %v", err)
+					continue
+				}
+				for _, d := range []int{nd - 1, 0, 129, 5, 128} {
+					var got []byte
+					n := 0
+					err := rd.VisitDocumentValues(uint64(d), func(f string, t []byte) {
+						got = append([]byte(nil), t...)
+						n++
+					})
+					if err != nil || n != 1 || !bytes.Equal(got, b[d][1].Terms[0].T) {
+						bad++
+					}
+				}
+			}
+			if bad > 0 {
+				sp.failf(in, "%d documents of the %s segment did not return the value that was put in (blocks above 1 MiB)", bad, kind)
+			}
+			sp.Evaluations++
+			sp.Distinct++
+			if 128*size > 1<<20 {
+				sp.Nontrivial++
+			}
+		}
+		if len(sp.Samples) < 1 {
+			sp.Samples = append(sp.Samples, map[string]interface{}{"round": r, "ndocs": nd, "value_size": size})
+		}
+	}
+	return sp
 }
